@@ -444,7 +444,28 @@ def r7(prog, ev, rep, fn):
         other_ok = other.k == "call" and other.a[0] == STATE + "nothing"
         good = g_ok and elem_ok and other_ok
         why = "guard `%s`, element `%s`, otherwise `%s`" % (g, b, other)
-    rep.check(good, "C10-R7", "value/Refs", where, "len == 1 -> element 0, else nothing", why)
+    readable = len(sel) == 2 and sel[0][1] == "conditional"
+    if len(sel) == 1 and sel[0][1] == "definite":
+        # the unguarded form: Refs(items) => if items.len() == 1 { element 0 } else { nothing }
+        b = t.a[1][sel[0][0]][2]
+        if b.k == "if":
+            readable = True
+            g, th, other = b.a
+            if g.k == "bin" and g.a[0] == "Ne":
+                g, th, other = Tm("bin", ("Eq", g.a[1], g.a[2])), other, th
+            g_ok = g.k == "bin" and g.a[0] == "Eq" and g.a[1].k == "call" and g.a[1].a[0].endswith("::len") and g.a[1].a[1] == refs \
+                and g.a[2].k == "lit" and g.a[2].a[1] == "1"
+            elem_ok = any(x.k == "call" and x.a[0].endswith("Index<I>>::index") and x.a[1] == refs and x.a[2].k == "lit" and x.a[2].a[1] == "0" for x in subterms(th)) \
+                or any(x.k == "index" and x.a[0] == refs and x.a[1].k == "lit" and x.a[1].a[1] == "0" for x in subterms(th))
+            other_ok = other.k == "call" and other.a[0] == STATE + "nothing"
+            good = g_ok and elem_ok and other_ok
+            why = "condition `%s`, element `%s`, otherwise `%s`" % (g, th, other)
+    if not readable:
+        b = t.a[1][sel[0][0]][2] if sel else None
+        rep.unrecognised("C10-R7", "value/Refs", where, "how value() treats a node list could not be read (expected `len == 1 -> element 0, else "
+                         "nothing` as a guarded arm or a conditional): `%s`" % str(b)[:240])
+    else:
+        rep.check(good, "C10-R7", "value/Refs", where, "len == 1 -> element 0, else nothing", why)
 
 
 # ------------------------------------------------------------------------------------------- R8
